@@ -125,7 +125,7 @@ def ap6_oracle(c, out):
 
 
 def run_ap6(ctx, proof):
-    n = ctx.scale(500, 10000)
+    n = ctx.scale(500, 5000)
     cases = [gen_ap6(ctx.rng) for _ in range(n)]
     return spkcommon.oracle_only(ctx, proof, cases, ap6_line, ap6_oracle, "ADD-PATH receive over MP_REACH/MP_UNREACH (IPv6 unicast): Loc-RIB = announced and not withdrawn (prefix, path-id) pairs")
 
